@@ -233,7 +233,7 @@ fn main() {
     vcommon::quiet_panics();
     let tier = ctx.tier();
     let w = Work {
-        random_cases: tier.pick(2000, 40000),
+        random_cases: tier.pick(2000, 150000),
     };
     ctx.assume("item/key domains are treated as unbounded (u8 items drawn from 0..7): a set holding every item of a finite domain is not regarded as a top element");
     ctx.assume("array/vec-backed sets and maps are built duplicate-free; DomPair keys are totally ordered (Max/Min); Point values only meet equal values");
